@@ -37,8 +37,10 @@ LEAN_TARGETS = ["Ipv8.C01.Props"]
 PROPS_FILE = "Ipv8/C01/Props.lean"
 DRIVER = "drv_c01"
 RULE = ("cases = mutants of signed datagrams captured from real protocol runs on the mock network, delivered to a live "
-        "overlay; distinct = distinct (target overlay, msg id, mutation operator, position class, sender curve); "
-        "non-trivial = the mutant reaches a registered handler of the target overlay (prefix matches, msg id registered)")
+        "overlay in a prepared receiver state; distinct = distinct (target overlay, msg id, mutation operator, position "
+        "class, sender curve, source-address state); non-trivial = the mutant reaches a MODELLED handler of the target "
+        "overlay (prefix matches, msg id registered with a lazy wrapper or the reviewed raw handler; deprecated / cell / "
+        "unknown ids and foreign prefixes are counted as cases but not as non-trivial)")
 TRUSTED_BASE = [
     "tools/gen_c01.py (statement-by-statement translation of the wrapper bodies, _verify_signature slices, _ez_pack; "
     "wrapper kind recognised from code objects; outer functools.wraps decorators such as wallet's @synchronized are "
@@ -52,7 +54,11 @@ TRUSTED_BASE = [
 ASSUMPTIONS = [
     "WellSized: 0 < sigLen(k) <= len(key bytes)+2 for every key that parses (re-checked on every key met; holds for all 5 curves)",
     "Canon: key_from_public_bin(c).key_to_bin() == c for canonical c (re-checked on every key met)",
-    "NetOK: Network.verified_by_public_key_bin[k] is a Peer whose key_to_bin() is k (checked on the receivers after the run)",
+    "NetOK: Network.verified_by_public_key_bin[k] is a Peer whose key_to_bin() is k — a run-time invariant of network.py that "
+    "no theorem derives; sampled on the live index after every delivery for the entries that delivery prepared, looked up or "
+    "added (evidence: hypothesis_checks.netok_live_entries_checked) and on the whole index at the end",
+    "history_sound ASSUMES that a handler adds at most the Peer it was handed; on the code this is only observed: key-set diff "
+    "per delivery, and once more after every available maintenance strategy of the overlay has taken two steps",
     "Unforgeable (only tamper_rejected/cross_overlay theorems): a verifying signature was made by the key holder over exactly these bytes",
 ]
 
@@ -133,6 +139,12 @@ class Observer:
                     self.coframes[id(frame)] = frame
                 names = code.co_varnames[:code.co_argcount]
                 loc = frame.f_locals
+                if lab[0] == "add_address":       # Peer.add_address(self, value): who is touched, by which caller
+                    back = frame.f_back
+                    self.events.append((lab, (loc.get(names[0]), loc.get(names[1]),
+                                              back.f_code.co_filename.replace("\\", "/") if back else ""), {}, None,
+                                        code.co_name))
+                    return
                 second = loc.get(names[1]) if len(names) > 1 else None
                 self.events.append((lab, second, dict((nm, loc.get(nm)) for nm in names[2:]), loc.get("payloads"),
                                     code.co_name))
@@ -175,6 +187,7 @@ async def step(coro, timeout=2.0):
 class Capture:
     def __init__(self):
         self.packets = []     # dict(overlay, data, sender_sk (rust private key bytes), curve, src)
+        self.late = {}
 
     def tap(self, node, overlay_name, curve):
         ep = node.endpoint
@@ -189,6 +202,30 @@ class Capture:
             except AssertionError:
                 return None
         ep.send = send
+        # receive side of the scenario node: which keys did the datagrams it received authenticate (spec triple, own prefix)
+        ov = node.overlay
+        node._c01_auth = {bytes(node.my_peer.public_key.key_to_bin())}
+        node._c01_rx = []
+        orig_on_packet = ov.on_packet
+
+        def on_packet(packet, *a, _o=orig_on_packet, **kw):
+            try:
+                src, data = packet[0], bytes(packet[1])
+                sp = spec_eval(data)
+                if sp["authentic"] and data[:22] == bytes(ov.get_prefix()):
+                    node._c01_auth.add(sp["canon"])
+                node._c01_rx.append((tuple(src), data))
+            except BaseException:
+                pass
+            return _o(packet, *a, **kw)
+        ov.on_packet = on_packet
+        # the endpoint holds the bound method it was registered with: re-register the tapped one
+        try:
+            node.endpoint.remove_listener(ov)
+            ov.on_packet = on_packet
+            node.endpoint.add_prefix_listener(ov, ov.get_prefix())
+        except BaseException:
+            pass
 
 
 def know(nodes, cid):     # NB: an overlay may own its Network (DHTCommunity ignores the one it is given): use overlay.network
@@ -199,6 +236,8 @@ def know(nodes, cid):     # NB: an overlay may own its Network (DHTCommunity ign
                 p = Peer(o.my_peer.public_key, o.endpoint.wan_address)
                 n.overlay.network.add_verified_peer(p)
                 n.overlay.network.discover_services(p, [cid])
+                if hasattr(n, "_c01_auth"):
+                    n._c01_auth.add(bytes(o.my_peer.public_key.key_to_bin()))    # put there by the harness, not by a datagram
 
 
 async def sc_intro(cap, cls, curve):
@@ -264,6 +303,18 @@ async def sc_dht(cap, cls, curve):
         except BaseException:
             pass
         await step(c.overlay.send_connect_peer_request(a.my_peer.mid, [dn(b)]))
+    # a third party's key and address, only NAMED inside an authentic find-response (b's routing table holds it, it never
+    # signs anything towards c): it must not become a verified peer of c, now or when c's maintenance runs
+    try:
+        vk = rust().PrivateKey(b"LibNaCLSK:" + bytes(_random.randrange(256) for _ in range(64)))
+        from ipv8.messaging.interfaces.udp.endpoint import UDPv4Address as _A4
+        vnode = Node(bytes(vk.pub().key_to_bin()), _A4("10.66.66.66", 6666))
+        b.overlay.get_routing_table(vnode).add(vnode)
+        b._c01_auth.add(bytes(vk.pub().key_to_bin()))      # inserted by the scenario into b, not learned from a datagram
+        await step(c.overlay.find_nodes(vnode.id), 0.5)
+        await step(c.overlay.find_values(vnode.id), 0.5)
+    except BaseException:
+        pass
     await pump()
     return nodes
 
@@ -329,13 +380,15 @@ async def sc_tunnel(cap, cls, curve):
     return nodes
 
 
-async def capture_all(ctx: Ctx, tables, rounds: int):
+async def capture_all(ctx: Ctx, tables, rounds: int, only: str | None = None):
     cap = Capture()
     by_name = {t["overlay"]: t["cls"] for t in tables}
-    curves = ["curve25519", "very-low", "curve25519", "low", "medium", "high"]
+    curves = ["curve25519", "very-low", "low", "medium", "high"]
     for rnd in range(rounds):
         for i, (name, cls) in enumerate(sorted(by_name.items())):
-            curve = curves[(rnd * 3 + i) % len(curves)] if rnd or i % 3 == 1 else "curve25519"
+            if only is not None and name != only:
+                continue
+            curve = curves[(rnd + i) % len(curves)]          # all five sender curves already in one round
             scs = [sc_intro(cap, cls, curve)]
             if name == "DiscoveryCommunity":
                 scs.append(sc_discovery(cap, cls, curve))
@@ -354,11 +407,24 @@ async def capture_all(ctx: Ctx, tables, rounds: int):
                 except BaseException as e:
                     ctx.count(f"capture:scenario-failed:{name}:{type(e).__name__}")
                     continue
+                # protocol-run oracle: in the nodes that really took part (pending requests, routing tables, caches in
+                # place), after the maintenance strategies ran, only keys that some received datagram authenticated (or
+                # that the scenario itself inserted) may be verified
+                class _R:       # run_strategies wants something with .nodes
+                    pass
+                rr = _R()
+                rr.nodes = {f"{name}#{j}": n for j, n in enumerate(nodes)}
+                late = await run_strategies(ctx, rr, {k: getattr(n, "_c01_auth", set()) for k, n in rr.nodes.items()},
+                                            {k: [(s_, d_, []) for s_, d_ in getattr(n, "_c01_rx", [])] for k, n in rr.nodes.items()},
+                                            scenario=getattr(sc, "__name__", "scenario"))
+                for kk, vv in late.items():
+                    cap.late[kk] = cap.late.get(kk, 0) + vv
                 for n in nodes:
                     try:
                         await n.stop()
                     except BaseException:
                         pass
+    ctx.extra["late_effects_in_protocol_runs"] = cap.late
     return cap.packets
 
 
@@ -498,8 +564,8 @@ def identity_cases(ctx: Ctx, pk: dict):
                             rng.randrange(1024, 65535))
     for signer, src in (("unknown", "fresh"), ("unknown", "other-peers-address"), ("known", "own-recorded-address"),
                         ("known", "fresh"), ("known", "other-peers-address")):
-        kb_ = r.PrivateKey.generate(_CURVES[pk["curve"]])
-        ka_ = r.PrivateKey.generate(_CURVES[rng.choice(["curve25519", pk["curve"]])])
+        kb_ = fresh_key(ctx, pk["curve"])
+        ka_ = fresh_key(ctx, rng.choice(["curve25519", pk["curve"]]))
         bpub, apub = bytes(kb_.pub().key_to_bin()), bytes(ka_.pub().key_to_bin())
         body = d[:23] + len(bpub).to_bytes(2, "big") + bpub + d[25 + kl:-n]
         data = body + bytes(kb_.signature(body))
@@ -558,6 +624,8 @@ class Receivers:
             elif h["kind"] == "raw":
                 self.obs.add(f.__code__, ("raw-entry", h["kind"]))
         self.obs.add(Network.add_verified_peer.__code__, ("add_verified_peer", ""))
+        from ipv8.peer import Peer
+        self.obs.add(Peer.add_address.__code__, ("add_address", ""))
 
     async def stop(self):
         for n in self.nodes.values():
@@ -581,10 +649,20 @@ def decode_bit(node, classes, buf: bytes) -> bool:
         return False
 
 
-async def deliver(node, obs: Observer, src, data: bytes):
+def peer_state(p):
+    """the part of a stored Peer that says where it is (never its liveness timestamps)"""
+    return tuple(sorted((c.__name__, tuple(a)) for c, a in p.addresses.items())), tuple(p.address)
+
+
+async def deliver(node, obs: Observer, src, data: bytes, watch=()):
     net = node.overlay.network
     before = set(net.verified_by_public_key_bin.keys())
     before_peers = {bytes(p.public_key.key_to_bin()) for p in net.verified_peers}
+    watched = {}
+    for k in watch:
+        pr = net.verified_by_public_key_bin.get(k)
+        if pr is not None:
+            watched[bytes(k)] = (pr, peer_state(pr))
     obs.events = []
     obs.active = True
     try:
@@ -598,7 +676,65 @@ async def deliver(node, obs: Observer, src, data: bytes):
         obs.active = False
     after = set(net.verified_by_public_key_bin.keys())
     after_peers = {bytes(p.public_key.key_to_bin()) for p in net.verified_peers}
-    return list(obs.events), (after - before) | (after_peers - before_peers)
+    moved = [k for k, (pr, st) in watched.items() if peer_state(pr) != st]
+    return list(obs.events), (after - before) | (after_peers - before_peers), moved
+
+
+def fresh_key(ctx: Ctx, curve: str):
+    """Rust private key; curve25519 keys are derived from ctx.rng (reproducible from VERIF_SEED), the sect curves can only
+    be generated from OS entropy by the library (their signatures are randomised anyway)"""
+    from ipv8.keyvault.crypto import _CURVES
+    r = rust()
+    if curve == "curve25519":
+        return r.PrivateKey(b"LibNaCLSK:" + bytes(ctx.rng.randrange(256) for _ in range(64)))
+    return r.PrivateKey.generate(_CURVES[curve])
+
+
+async def run_strategies(ctx: Ctx, recv, auth_keys: dict, accepted: dict, scenario: str | None = None):
+    out = {"strategies_run": 0, "receivers": 0, "unauthenticated_keys": 0}
+    for name, node in sorted(recv.nodes.items()):
+        ov = node.overlay
+        net = ov.network
+        before = {bytes(k) for k in net.verified_by_public_key_bin} | \
+                 {bytes(p.public_key.key_to_bin()) for p in net.verified_peers}
+        try:
+            strategies = dict(ov.get_available_strategies())
+        except BaseException:
+            strategies = {}
+        try:
+            from ipv8.peerdiscovery.discovery import EdgeWalk, RandomWalk
+            strategies.setdefault("RandomWalk", RandomWalk)
+            strategies.setdefault("EdgeWalk", EdgeWalk)
+        except BaseException:
+            pass
+        out["receivers"] += 1
+        for sname, scls in sorted(strategies.items()):
+            try:
+                st = scls(ov)
+                for _ in range(2):
+                    st.take_step()
+                    await asyncio.sleep(0)
+                    await asyncio.sleep(0)
+                out["strategies_run"] += 1
+                ctx.count(f"late:strategy:{sname}")
+            except BaseException as e:
+                ctx.count(f"late:strategy-failed:{sname}:{type(e).__name__}")
+        after = {bytes(k) for k in net.verified_by_public_key_bin} | \
+                {bytes(p.public_key.key_to_bin()) for p in net.verified_peers}
+        ok = auth_keys.get(name, set())
+        for k in sorted((after - before) | ((before - ok) if scenario else set())):
+            kc = (real_parse(k) or (None, None, k))[2]
+            if kc in ok:
+                continue
+            out["unauthenticated_keys"] += 1
+            hist = [(s_, d_, pre_) for (s_, d_, pre_) in accepted.get(name, []) if k in d_ or kc in d_][-20:]
+            ctx.oracle_fail(f"{name.split('#')[0]}:verified-peer-unauthenticated-late",
+                            f"{name}: after its maintenance strategies ran, verified_by_public_key_bin holds {k.hex()[:24]}… "
+                            f"which no delivered datagram authenticated (it was only NAMED in {len(hist)} accepted datagram(s))",
+                            {"overlay": name.split("#")[0], "late_key": k.hex(), "then": "strategies", "scenario": scenario,
+                             "history": [{"src": list(s_), "data": d_.hex(),
+                                          "verified_before": [[a.hex(), list(b)] for a, b in pre_]} for s_, d_, pre_ in hist]})
+    return out
 
 
 # ------------------------------------------------------------------------------------------------ main run
@@ -620,6 +756,10 @@ async def run_async(ctx: Ctx, use_model: bool, scale: dict):
 
     # ---- capture ---------------------------------------------------------------------------------------------
     packets = await capture_all(ctx, tables, scale["capture_rounds"])
+    have = {(p["overlay"], p["data"][22]) for p in packets if len(p["data"]) > 22}
+    if required - have:          # a scenario step timed out on a loaded machine: try once more before giving up
+        ctx.count("capture:retry")
+        packets += await capture_all(ctx, tables, 1)
     signed = []
     seen_pairs = {}
     for p in packets:
@@ -646,10 +786,9 @@ async def run_async(ctx: Ctx, use_model: bool, scale: dict):
     ctx.extra["captured_signed_used"] = len(signed)
 
     # attacker keys, one per curve in use
-    from ipv8.keyvault.crypto import _CURVES
     other_keys = {}
     for lvl in ("curve25519", "very-low", "low", "medium", "high"):
-        other_keys[lvl] = r.PrivateKey.generate(_CURVES[lvl])
+        other_keys[lvl] = fresh_key(ctx, lvl)
 
     # ---- mutants ---------------------------------------------------------------------------------------------
     cases = []
@@ -678,18 +817,23 @@ async def run_async(ctx: Ctx, use_model: bool, scale: dict):
             cc = dict(cc)
             cc["srcstate"] = state
             if state == "other-verified-peer-at-src":
-                cc["pre"] = [(bytes(r.PrivateKey.generate(_CV["curve25519"]).pub().key_to_bin()), src)]
+                cc["pre"] = [(bytes(fresh_key(ctx, "curve25519").pub().key_to_bin()), src)]
             elif state == "signer-verified-at-src" and okey is not None:
                 cc["pre"] = [(okey, src)]
+            elif state == "signer-verified-elsewhere" and okey is not None:
+                cc["pre"] = [(okey, UDPv4Address("10.%d.%d.%d" % (ctx.rng.randrange(1, 255), ctx.rng.randrange(256),
+                                                                 ctx.rng.randrange(1, 255)), ctx.rng.randrange(1024, 65535)))]
             return cc
         if dispatch_level:
             c["srcstate"] = "as-captured"
             extra.append(with_state(c, "other-verified-peer-at-src"))
             if okey is not None:
                 extra.append(with_state(c, "signer-verified-at-src"))
+                extra.append(with_state(c, "signer-verified-elsewhere"))
         else:
-            st = ctx.rng.choice(["as-captured", "as-captured", "other-verified-peer-at-src", "signer-verified-at-src"])
-            if st != "as-captured" and (st != "signer-verified-at-src" or okey is not None):
+            st = ctx.rng.choice(["as-captured", "other-verified-peer-at-src", "signer-verified-at-src",
+                                 "signer-verified-elsewhere", "signer-verified-elsewhere"])
+            if st != "as-captured" and (st == "other-verified-peer-at-src" or okey is not None):
                 c.update(with_state(c, st))
             else:
                 c["srcstate"] = "as-captured"
@@ -728,6 +872,9 @@ async def run_async(ctx: Ctx, use_model: bool, scale: dict):
     obs.start()
     keys_seen = {}
     lines, expected = [], []
+    hyp_live = {"entries_checked": 0, "netok_violations": 0}
+    auth_keys = {}          # receiver -> keys authenticated by some delivered datagram carrying its prefix
+    accepted = {}           # receiver -> [(src, data)] of deliveries that entered a handler (for history replays)
     try:
         for c in cases:
             data, tgt = c["data"], c["target"]
@@ -757,7 +904,15 @@ async def run_async(ctx: Ctx, use_model: bool, scale: dict):
                                              c["m_rem"]) else "0") + \
                           ("1" if decode_bit(node, [GlobalTimeDistributionPayload, mp.IntroductionRequestPayload],
                                              c["m_rem"]) else "0")
-            events, new_keys = await deliver(node, obs, c["src"], data)
+            watch = [k for k, _ in pre] + [x for x in (sp["canon"], sp["key_field"], net_addr) if x]
+            events, new_keys, moved = await deliver(node, obs, c["src"], data, watch)
+            # NetOK on the live index, while the prepared / newly added entries are still there
+            netw = node.overlay.network
+            for k in set(watch) | set(new_keys):
+                pr = netw.verified_by_public_key_bin.get(k)
+                hyp_live["entries_checked"] += 1
+                if pr is not None and bytes(pr.public_key.key_to_bin()) != bytes(k):
+                    hyp_live["netok_violations"] += 1
             if pre:
                 undo_pre(node, pre, [sp["canon"]] if sp["canon"] else [])
 
@@ -815,6 +970,36 @@ async def run_async(ctx: Ctx, use_model: bool, scale: dict):
                     ctx.oracle_fail(f"{hname}:verified-peer-unauthenticated",
                                     f"{tgt} msg {data[22] if len(data) > 22 else '-'}: verified_by_public_key_bin gained "
                                     f"{k.hex()[:24]}… which the delivered datagram does not authenticate ({c['op']})", replay)
+            # the stored Peer of a key is re-pointed / gets a new address only by a datagram authentic for that key
+            for k in moved:
+                kc = (real_parse(k) or (None, None, k))[2]
+                if not (sp["authentic"] and kc == sp["canon"] and data[:22] == t["prefix"]):
+                    ctx.oracle_fail(f"{hname}:verified-peer-moved",
+                                    f"{tgt} msg {data[22] if len(data) > 22 else '-'}: the address book of the stored verified "
+                                    f"Peer {k.hex()[:24]}… changed although the datagram is not authentic for that key "
+                                    f"({c['op']}/{c['cls']}/{c.get('srcstate')})", replay)
+            # payloads handed to the handler are the ones encoded in the signed bytes
+            if sp["authentic"] and h is not None and h["kind"] in ("signed", "signedWd") and entered:
+                try:
+                    want = node.overlay.serializer.unpack_serializable_list(
+                        h["payload_classes"], bytes(23) + data[25 + len(sp["key_field"]):-sp["n"]], offset=23)
+                    got = [v for v in entered[-1][2].values() if hasattr(v, "to_pack_list")]
+                    if len(got) == len(want) and [g.to_pack_list() for g in got] != [w.to_pack_list() for w in want]:
+                        ctx.oracle_fail(f"{hname}:payload-not-from-signed-bytes",
+                                        f"{tgt} msg {data[22]}: the payloads handed to {hname} differ from the payloads "
+                                        f"encoded between key field and signature ({c['op']}/{c['cls']})", replay)
+                    ctx.count("payload-args:compared" if len(got) == len(want) else "payload-args:arity-differs")
+                except BaseException:
+                    ctx.count("payload-args:not-comparable")
+            if sp["authentic"] and data[:22] == t["prefix"]:
+                auth_keys.setdefault(tgt, set()).add(sp["canon"])
+            if any_entry:
+                accepted.setdefault(tgt, []).append((tuple(c["src"]), data, [(k, tuple(a)) for k, a in pre]))
+            # wrapper-level address update of a stored Peer (compared with the model's `touched`)
+            impl_touched = sorted({peer_key_of(sec[0]).hex() for (lab, sec, _, _, _) in events
+                                   if lab[0] == "add_address" and sec[2].endswith("/lazy_community.py")
+                                   and peer_key_of(sec[0]) is not None})
+            c["impl_touched"] = impl_touched
             # -- bookkeeping
             ctx.count(f"op:{c['op']}")
             ctx.count(f"pos:{c['op']}:{c['cls']}" if c["op"] in ("bitflip", "truncate", "identity-matrix")
@@ -828,11 +1013,14 @@ async def run_async(ctx: Ctx, use_model: bool, scale: dict):
             ctx.count(f"spec:{'authentic' if sp['authentic'] else 'not-authentic'}")
             ctx.count(f"impl:{impl.split(' ')[0]}")
             ctx.count("len:%s" % ("<64" if len(data) < 64 else "<256" if len(data) < 256 else "<1024" if len(data) < 1024 else ">=1024"))
-            ctx.case((tgt, data[22] if len(data) > 22 else -1, c["op"], c["cls"], c["curve"], c.get("srcstate")), reached)
+            ctx.case((tgt, data[22] if len(data) > 22 else -1, c["op"], c["cls"], c["curve"], c.get("srcstate")),
+                     reached and h["kind"] in ("signed", "signedWd", "unsigned", "unsignedWd", "raw"))
             if len(ctx.samples) < 6 and c["op"] in ("key-substitution+resign", "prefix-swap", "identity-matrix") \
                     and not any(x["operator"] == c["op"] and x["position"] == c["cls"] for x in ctx.samples):
                 ctx.sample({"target": tgt, "msg_id": data[22], "operator": c["op"], "position": c["cls"],
-                            "spec_authentic": sp["authentic"], "implementation": impl.split(" ")[0], "bytes": len(data)})
+                            "source_address_state": c.get("srcstate"), "src": list(c["src"]),
+                            "verified_before": [[k.hex(), list(a)] for k, a in pre],
+                            "spec_authentic": sp["authentic"], "implementation": impl, "datagram": data.hex()})
             if drv:
                 pa = "none" if not c.get("m_parse") else f"{c['m_parse'][1]}:{c['m_parse'][2].hex()}"
                 lines.append(f"recv {tgt} {data.hex() or '-'} {pa} {1 if c.get('m_verify') else 0} {dec} "
@@ -845,6 +1033,19 @@ async def run_async(ctx: Ctx, use_model: bool, scale: dict):
     if drv:
         replies = drv.batch(lines)
         for ln, rep, (impl, c, h) in zip(lines, replies, expected):
+            m_touched = []
+            if " touched=" in rep:
+                rep, tk = rep.split(" touched=")
+                m_touched = [tk]
+            if rep.split(" ")[0] != "other" and m_touched != c.get("impl_touched", []):
+                ctx.count("touched:disagree")
+                ctx.disagree(f"model says the wrapper updates the stored Peer {m_touched} but the implementation updated "
+                             f"{c.get('impl_touched')} for {c['target']} msg {c['data'][22] if len(c['data']) > 22 else '-'} "
+                             f"({c['op']}/{c['cls']}/{c.get('srcstate')})",
+                             {"overlay": c["target"], "data": c["data"].hex(), "src": list(c["src"]), "operator": c["op"],
+                              "verified_before": [[k.hex(), list(a)] for k, a in (c.get("pre") or [])]})
+            elif m_touched:
+                ctx.count("touched:agree-some")
             head = rep.split(" ")[0]
             ctx.count(f"model:{rep if head in ('rejected', 'other') else head}")
             if head == "other":
@@ -861,6 +1062,12 @@ async def run_async(ctx: Ctx, use_model: bool, scale: dict):
                              {"overlay": c["target"], "data": c["data"].hex(), "src": list(c["src"]), "operator": c["op"],
                               "position": c["cls"], "line": ln[:200], "model": rep[:200], "implementation": impl})
 
+    # ---- later effects: maintenance strategies run on what the handlers left behind -------------------------------
+    # (routing tables, introduction caches …): nothing they do may create a verified-peer entry for a key that no
+    # delivered datagram authenticated
+    late = await run_strategies(ctx, recv, auth_keys, accepted)
+    ctx.extra["late_effects"] = late
+
     # ---- hypotheses of the theorems, checked on every key met ----------------------------------------------------
     hyp = {"keys": 0, "wellsized_violations": 0, "canon_violations": 0, "netok_violations": 0}
     for kb, (canon, n) in keys_seen.items():
@@ -874,6 +1081,8 @@ async def run_async(ctx: Ctx, use_model: bool, scale: dict):
         for k, peer in node.overlay.network.verified_by_public_key_bin.items():
             if bytes(peer.public_key.key_to_bin()) != bytes(k):
                 hyp["netok_violations"] += 1
+    hyp["netok_live_entries_checked"] = hyp_live["entries_checked"]
+    hyp["netok_violations"] += hyp_live["netok_violations"]
     ctx.extra["hypothesis_checks"] = hyp
     if hyp["wellsized_violations"] or hyp["canon_violations"] or hyp["netok_violations"]:
         ctx.disagree(f"a hypothesis of the theorems does not hold on the real crypto/network: {hyp}", {"hypotheses": hyp})
@@ -906,6 +1115,11 @@ async def run_async(ctx: Ctx, use_model: bool, scale: dict):
             if rep != ex:
                 ctx.disagree("Gen.ezrPack differs from ezr_pack", {"line": ln[:300], "model": rep[:300], "impl": ex[:300]})
     await recv.stop()
+    missing = ctx.extra.get("auth_pairs_without_captured_datagram")
+    if missing and not ctx.failures and not ctx.disagreements and not ctx.broken and not ctx.searching:
+        # never report green on shrunken coverage: an authenticated id without a captured datagram was not checked
+        from vlib import InfraError
+        raise InfraError(f"no datagram captured for authenticated ids {missing} (capture scenario failed or timed out)")
 
 
 SCALES = {
@@ -933,9 +1147,46 @@ def search(ctx: Ctx, reason: str):
     asyncio.run(run_async(ctx, False, SCALES["search"]))
 
 
+async def replay_history(ctx: Ctx, r: dict):
+    """replay of a `…-late` finding: deliver the recorded accepted datagrams, run the strategies, look at the key index"""
+    from ipv8.messaging.interfaces.udp.endpoint import UDPv4Address
+    tables = _INFO.get("tables") or gen_c01.collect_tables()
+    obs = Observer()
+    recv = Receivers(tables, obs)
+    node = recv.get(r["overlay"])
+    auth = set()
+    for ev in r["history"]:
+        data = bytes.fromhex(ev["data"])
+        pre = [(bytes.fromhex(k), UDPv4Address(*a)) for k, a in ev.get("verified_before", [])]
+        apply_pre(node, pre)
+        await deliver(node, obs, UDPv4Address(*ev["src"]), data)
+        sp = spec_eval(data)
+        undo_pre(node, pre)
+        if sp["authentic"]:
+            auth.add(sp["canon"])
+    late = await run_strategies(ctx, recv, {r["overlay"]: auth}, {})
+    print(f"replay: {r['overlay']}: {len(r['history'])} datagram(s) delivered, strategies run; keys verified without an "
+          f"authenticating datagram: {late['unauthenticated_keys']}; property {'FAILS' if late['unauthenticated_keys'] else 'holds'}")
+    ctx.case(("replay",), True)
+    await recv.stop()
+
+
 async def replay(ctx: Ctx, rec: dict):
     logging.disable(logging.CRITICAL)
     r = rec.get("replay", rec)
+    if r.get("then") == "strategies" and r.get("scenario"):
+        # found inside a protocol run (pending requests, routing tables in place): re-run that overlay's scenarios
+        _random.seed(0)
+        tables = _INFO.get("tables") or gen_c01.collect_tables()
+        before = len(ctx.failures)
+        await capture_all(ctx, tables, 1, only=r["overlay"])
+        bad = len(ctx.failures) - before
+        print(f"replay: protocol scenarios of {r['overlay']} re-run with the maintenance strategies; keys verified without an "
+              f"authenticating datagram: {bad}; property {'FAILS' if bad else 'holds'}")
+        ctx.case(("replay",), True)
+        return None
+    if r.get("then") == "strategies":
+        return await replay_history(ctx, r)
     tables = _INFO.get("tables") or gen_c01.collect_tables()
     spec = _INFO.get("spec") or gen_c01.load_spec()
     required = auth_required_set(spec)
@@ -949,7 +1200,8 @@ async def replay(ctx: Ctx, rec: dict):
     apply_pre(node, [(bytes.fromhex(k), UDPv4Address(*a)) for k, a in r.get("verified_before", [])])
     obs.start()
     try:
-        events, new_keys = await deliver(node, obs, src, data)
+        events, new_keys, _moved = await deliver(node, obs, src, data, [bytes.fromhex(k) for k, _ in
+                                                                       r.get("verified_before", [])])
     finally:
         obs.stop()
     sp = spec_eval(data)
